@@ -6,6 +6,7 @@ package vgirpc
 import (
 	"io"
 	"log/slog"
+	"math/big"
 	"reflect"
 	"sort"
 	"sync"
@@ -87,9 +88,9 @@ type Server struct {
 	methods              map[string]*methodInfo
 	serverID             string
 	serviceName          string
-	protocolVersion      string // canonical semver MAJOR.MINOR.PATCH, or "" when opted out
-	protocolVersionParts [3]int // parsed (major, minor, patch); used when protocolVersion != ""
-	protocolVersionSet   bool   // true when SetProtocolVersion was called with a non-empty value
+	protocolVersion      string      // canonical semver MAJOR.MINOR.PATCH, or "" when opted out
+	protocolVersionParts [3]*big.Int // parsed (major, minor, patch); used when protocolVersion != ""
+	protocolVersionSet   bool        // true when SetProtocolVersion was called with a non-empty value
 	protocolHash         string
 	protocolHashOnce     sync.Once
 	dispatchHook         DispatchHook
@@ -276,7 +277,7 @@ func (s *Server) SetProtocolVersion(v string) {
 	if v == "" {
 		s.protocolVersion = ""
 		s.protocolVersionSet = false
-		s.protocolVersionParts = [3]int{}
+		s.protocolVersionParts = [3]*big.Int{}
 		return
 	}
 	major, minor, patch, err := parseSemver(v)
@@ -284,7 +285,7 @@ func (s *Server) SetProtocolVersion(v string) {
 		panic(err)
 	}
 	s.protocolVersion = v
-	s.protocolVersionParts = [3]int{major, minor, patch}
+	s.protocolVersionParts = [3]*big.Int{major, minor, patch}
 	s.protocolVersionSet = true
 }
 
@@ -322,12 +323,13 @@ func (s *Server) checkProtocolVersion(clientVersion string, present bool) *Proto
 				"Expected canonical semver MAJOR.MINOR.PATCH.",
 		}
 	}
-	serverMajor, serverMinor := s.protocolVersionParts[0], s.protocolVersionParts[1]
-	if major == serverMajor && minor == serverMinor {
+	cmpMajor := major.Cmp(s.protocolVersionParts[0])
+	cmpMinor := minor.Cmp(s.protocolVersionParts[1])
+	if cmpMajor == 0 && cmpMinor == 0 {
 		return nil
 	}
 	var direction string
-	if major < serverMajor || (major == serverMajor && minor < serverMinor) {
+	if cmpMajor < 0 || (cmpMajor == 0 && cmpMinor < 0) {
 		direction = "client is too old; upgrade the VGI extension/client to a " +
 			"version supporting protocol_version " + s.protocolVersion + "."
 	} else {
